@@ -813,6 +813,10 @@ func (z *E24) SetBytes(e []byte) error {
 
 // IsInSubGroup ensures GT/E24 is in correct subgroup
 func (z *E24) IsInSubGroup() bool {
+	// 0 is not a unit: it satisfies every power relation checked below
+	if z.IsZero() {
+		return false
+	}
 	var a, b E24
 
 	// check z^(phi_k(p)) == 1
